@@ -94,7 +94,6 @@ func startServer(bin string) (*restServer, error) {
 		s.cmd = exec.Command(bin, "-serve", addr)
 		s.cmd.Stdout = io.Discard
 		s.cmd.Stderr = s.stderr
-		s.cmd.SysProcAttr = &syscall.SysProcAttr{Pdeathsig: syscall.SIGKILL}
 		if err := s.cmd.Start(); err != nil {
 			return nil, err
 		}
